@@ -35,6 +35,19 @@ TRUSTED_BASE = [
 ]
 
 
+def raise_stack_limit():
+    """Long string literals (maxLength boundary cases) nest deeply in Coq's parser."""
+    import resource
+    try:
+        soft, hard = resource.getrlimit(resource.RLIMIT_STACK)
+        resource.setrlimit(resource.RLIMIT_STACK, (hard, hard))
+    except (ValueError, OSError):
+        pass
+
+
+raise_stack_limit()
+
+
 def log(*a):
     print(*a, file=sys.stderr, flush=True)
 
@@ -497,3 +510,31 @@ def proof_status(rep, prop_id, build):
         rep.violation("%s:axioms" % prop_id, "a property theorem depends on axioms",
                       {"kind": "axioms", "assumptions": notclosed, "theorem": ",".join(notclosed)}, found_input=False)
     return built, (n, n if built else 0), assumptions
+
+
+def standard_run(rep, prop_id, targets, body, rule, exhaustive=False):
+    """The frame every check shares: build (translator + make of the property's theorem file and
+    the case-support modules), proof status, then `body(rep)` (corpus, correspondences, direct
+    oracles), then the broken-obligation protocol."""
+    build = ensure_build(["Props/%s.vo" % prop_id] + list(targets))
+    built, obl, assumptions = proof_status(rep, prop_id, build)
+    rep.coverage["rule"] = rule
+    if exhaustive:
+        rep.coverage["exhaustive"] = True
+    support_ok = all(os.path.exists(os.path.join(COQ, t)) for t in targets)
+    body(rep, support_ok and build.translator_ok)
+    if not build.translator_ok:
+        rep.violation("%s:translator" % prop_id,
+                      "the translator rejected the working tree: " + build.translator_msg[-400:],
+                      {"kind": "translator", "message": build.translator_msg,
+                       "theorem": "all of Props/%s.v (tables could not be regenerated)" % prop_id},
+                      found_input=bool(rep.violations))
+    elif not built or not support_ok:
+        if not rep.violations and not rep.known_hits:
+            rep.violation("%s:theorem" % prop_id,
+                          "Props/%s.v (or the model it rests on) no longer checks and no failing input was found" % prop_id,
+                          {"kind": "theorem", "theorem": "Props/%s.v" % prop_id, "failed_files": build.failed_files,
+                           "make_log": build.make_log[-3000:]}, found_input=False)
+        else:
+            rep.coverage["broken_obligation"] = {"failed_files": build.failed_files, "make_log": build.make_log[-1500:]}
+    return rep.finish(build=build, obligations=obl, assumptions_out=assumptions)
